@@ -175,7 +175,8 @@ def _one(name, params, ret, body, types, helpers, helper=False):
             return None
         raise TieBroken(f"srcfacts: {name}: guard on `{expr}` ({where}) is not a parameter")
 
-    checked_at = {}   # param index -> position of the first validating guard
+    checked_at = {}   # param index -> position of the first guard on it
+    validated_params = set()
     for m in G_DEREF.finditer(body_n):
         i = pidx(m.group(2), "deref")
         if i is None:
@@ -184,10 +185,14 @@ def _one(name, params, ret, body, types, helpers, helper=False):
             raise TieBroken(f"srcfacts: {name}: unknown registry type {m.group(3)}")
         events.append((m.start(), ("GDeref", i, types[m.group(3)])))
         checked_at.setdefault(i, m.start())
+        validated_params.add(i)
+    untracked_params = set()
     for m in G_UNTRACK.finditer(body_n):
         i = pidx(m.group(1), "untrack")
         events.append((m.start(), ("GUntrack", i, types[m.group(2)])))
         checked_at.setdefault(i, m.start())
+        untracked_params.add(i)
+        validated_params.add(i)
     for m in G_CSTR.finditer(body_n):
         i = pidx(m.group(1), "cstr")
         if i is not None:
@@ -239,8 +244,14 @@ def _one(name, params, ret, body, types, helpers, helper=False):
                 ty = ps[i][1]
                 if not ty.startswith("*"):
                     continue
+                ht0 = handle_type(ty)
                 if i in checked_at and checked_at[i] < m.start():
-                    continue
+                    # a NULL test is not a validation of a registry-typed pointer; Box::from_raw needs an untrack
+                    ok = (i in validated_params) if ht0 is not None else True
+                    if kind == "own":
+                        ok = i in untracked_params
+                    if ok:
+                        continue
                 if (i, kind) in raw_seen:
                     continue
                 raw_seen.add((i, kind))
@@ -329,11 +340,13 @@ def facts(ctx):
              f"Definition MAX_CSTRING_LEN : N := {maxstr}."]
     for n, i in sorted(types.items(), key=lambda kv: kv[1]):
         lines.append(f"Definition T_{n} : tid := {i}.")
+    for name in sorted(fns):            # one constant per function: the correspondence run refers to these directly
+        lines.append(f'Definition g_{name} : list guard := [{"; ".join(_g(g) for g in fns[name]["guards"])}].')
     lines.append("Definition api_table : list (string * fspec) := [")
     rows = []
     for name in sorted(fns):
         f = fns[name]
-        rows.append(f'  ("{name}", F [{"; ".join(_k(p[1]) for p in f["params"])}] [{"; ".join(_g(g) for g in f["guards"])}])')
+        rows.append(f'  ("{name}", F [{"; ".join(_k(p[1]) for p in f["params"])}] g_{name})')
     lines.append(";\n".join(rows))
     lines.append("].")
     lines.append("Definition free_fns : list string := [" + "; ".join(f'"{n}"' for n in sorted(free_fns)) + "].")
@@ -341,3 +354,655 @@ def facts(ctx):
                  "  match find_fn name api_table with Some f => CApi (f_guards f) args b | None => CApi [] args b end.")
     common.write_if_changed(os.path.join(common.COQ, "Generated", "C31_facts.v"), "\n".join(lines) + "\n")
     ctx.facts = {"types": types, "fns": fns, "free_fns": free_fns, "maxstr": maxstr}
+
+
+# ------------------------------------------------------------------ what the property text says (independent of the model)
+
+HANDLE_RE = re.compile(r"^\*(?:mut|const)\s+(\w+)$")
+# pointer parameters that must not be NULL, by declared type (user contexts and callbacks are pass-through values)
+REQUIRED_PTR = re.compile(r"^(\*(?:mut|const)\s+(c_char|c_uchar|u8|usize|C2paHashType|\*const c_uchar)|&\s*\w+|\*const c_char \(field\))$")
+# documented as optional in the doc comments of c_api.rs ("or NULL", "may be NULL", "can be NULL")
+OPTIONAL = {("c2pa_signer_create", "tsa_url"), ("c2pa_signer_from_info", "signer_info.ta_url"),
+            ("c2pa_builder_sign_data_hashed_embeddable", "asset"), ("c2pa_builder_placeholder", "manifest_bytes_ptr"),
+            ("c2pa_builder_set_data_hash_exclusions", "exclusions_ptr"),
+            ("c2pa_identity_signer_create", "referenced_assertions"), ("c2pa_identity_signer_create", "roles")}
+CLS = {"NullParameter": "CNull", "WrongPointerType": "CWrongType", "UntrackedPointer": "CUntracked",
+       "StringTooLong": "CStringTooLong", "InvalidBufferSize": "CBufSize"}
+UNGUARDED = ("GRaw", "GRawOpt", "GMem", "GOwn")
+KNOWN_SUSPECTS = {
+    "F-FFI-RAWSTREAM": [["c2pa_builder_add_resource", "stream"], ["c2pa_reader_resource_to_stream", "stream"],
+                        ["c2pa_builder_sign_data_hashed_embeddable", "asset"]],
+    "F-FFI-OUTNULL": [["c2pa_reader_supported_mime_types", "count"], ["c2pa_builder_supported_mime_types", "count"]],
+    "F-FFI-STRARRAY": [["c2pa_free_string_array", "ptr"]],
+    "F-FFI-INFONULL": [["c2pa_signer_from_info", "signer_info"]],
+}
+
+
+def err_class(t):
+    """class of the error the implementation reported for this op, or None"""
+    m = t["msg"]
+    if m.startswith("Other: "):
+        m = m[7:]
+    return CLS.get(m.split(":")[0].strip(), "CBody")
+
+
+def impl_outcome(t):
+    rk, ret, err = t["rk"], t["ret"], t["err"]
+    if rk == "int":
+        if ret is not None and ret < 0:
+            return ("err", err_class(t) if err else "CSilent")
+        return ("ok",)
+    if rk == "ptr":
+        return ("err", err_class(t)) if (ret == 0 and err) else ("ok",)
+    if rk == "bool":
+        return ("err", err_class(t)) if (ret is False and err) else ("ok",)
+    return ("err", err_class(t)) if err else ("ok",)
+
+
+def indicator_is_error(t):
+    rk, ret = t["rk"], t["ret"]
+    return {"int": lambda: ret < 0, "ptr": lambda: ret == 0, "bool": lambda: ret is False, "void": lambda: True}[rk]()
+
+
+ALL_KNOWN = [tuple(x) for v in KNOWN_SUSPECTS.values() for x in v]
+
+
+def known_raw(facts, fname):
+    """indices of the parameters of fname that are on the known-unguarded list (the generator keeps those valid;
+    a parameter that loses its guard later is NOT on this list and gets the full range of bad arguments)"""
+    f = facts["fns"].get(fname)
+    return {i for i, p in enumerate(f["params"]) if (fname, p[0]) in ALL_KNOWN} if f else set()
+
+
+def suspects(case, facts):
+    """ops that hand a non-live value to a parameter known to be dereferenced without a check"""
+    out = []
+    for op in case["ops"]:
+        f = facts["fns"].get(op["f"])
+        if not f:
+            continue
+        for i in sorted(known_raw(facts, op["f"])):
+            g = ("GOwn" if f["params"][i][0] == "ptr" else "GRawOpt" if (op["f"], f["params"][i][0]) in OPTIONAL else "GRaw", i)
+            if g[1] < len(op["a"]):
+                a = op["a"][g[1]]
+                live = ("op" in a and not a.get("off") and not a.get("stale")) or a.get("out") is True or (a.get("info") is not None and "info" in a)
+                if g[0] == "GOwn" or not live:
+                    if g[0] == "GRawOpt" and "null" in a:
+                        continue
+                    out.append([op["f"], f["params"][g[1]][0]])
+    return out
+
+
+# parameters the API documentation declares consumed ("is consumed by this call", "the pointer is INVALID after")
+CONSUMES = {"c2pa_context_builder_set_signer": ["signer_ptr"], "c2pa_context_builder_set_http_resolver": ["resolver_ptr"],
+            "c2pa_context_builder_build": ["builder"], "c2pa_reader_with_stream": ["reader"],
+            "c2pa_reader_with_manifest_data_and_stream": ["reader"], "c2pa_reader_with_fragment": ["reader"],
+            "c2pa_builder_with_definition": ["builder"], "c2pa_builder_with_archive": ["builder"],
+            "c2pa_identity_signer_create": ["c2pa_signer_ptr", "identity_signer_ptr"]}
+
+
+def oracle_case(ctx, case, res, facts, stats, seen):
+    """The property, evaluated on what the implementation returned.  Liveness is derived from the history alone:
+    a handle is live from the call that returned it until a free of it succeeds or a call documented as consuming
+    it is made with valid arguments.  (When a consuming call is made with another argument invalid, the
+    documentation does not say whether the handle was consumed: it is `unsure` until it is returned again.)"""
+    mi0 = {"suspects": suspects(case, facts), "nops": len(case["ops"])}
+    if res is None:
+        return
+    if res["r"] in ("crash", "panic"):
+        mi = dict(mi0, crash=True)
+        ctx.report_violation(case, f"the call sequence did not return ({res['r']}): {res.get('msg', '')[:200]}", mi)
+        stats["crashes"] += 1
+        return
+    live = {a: t for a, t in res["start"]}
+    unsure, released = set(), set()
+    if live:
+        ctx.report_violation(case, f"registry not empty before the sequence: {len(live)} entries", dict(mi0, leak=True))
+    for k, t in enumerate(res["trace"]):
+        f = t["f"]
+        reg = {a: ty for a, ty in t["reg"]}
+        args = [v for _, v in t["args"]]
+        stats["ops"] += 1
+        stats["fn"][f] = stats["fn"].get(f, 0) + 1
+
+        def viol(why, **kw):
+            ctx.report_violation(case, f"op {k} {f}: {why}", dict(mi0, f=f, step=k, **kw))
+        if f in facts["free_fns"] or f == "cimpl_free":
+            a = args[0]
+            if a == 0:
+                stats["kinds"]["free NULL (unspecified)"] += 1
+            elif a in unsure:
+                stats["kinds"]["free unsure (unspecified)"] += 1
+                unsure.discard(a)
+                released.add(a)
+            elif a in live:
+                stats["kinds"]["free live"] += 1
+                if t["rk"] == "int" and t["ret"] != 0:
+                    viol(f"free of a live handle ({live[a]}) returned {t['ret']}", param="ptr", kind="live")
+                elif t["err"]:
+                    viol(f"free of a live handle set an error: {t['msg']}", param="ptr", kind="live")
+                del live[a]
+                released.add(a)
+            else:
+                kind = "freed" if a in released else "foreign"
+                stats["kinds"][f"free {kind}"] += 1
+                if t["rk"] == "int" and t["ret"] != -1:
+                    viol(f"free of a pointer that is not a live handle ({kind}) returned {t['ret']}, not -1", param="ptr", kind=kind)
+                elif not t["err"] or not t["msg"]:
+                    viol(f"free of a pointer that is not a live handle ({kind}) left no error message", param="ptr", kind=kind)
+        elif f in facts["fns"]:
+            spec = facts["fns"][f]
+            bad, skip, hvals = [], False, []
+            for i, (pname, _, ty) in enumerate(spec["params"]):
+                if i >= len(args):
+                    break
+                v = args[i]
+                m = HANDLE_RE.match(ty)
+                T = m.group(1) if m and m.group(1) in facts["types"] else None
+                if v == 0 and (f, pname) in OPTIONAL:
+                    continue
+                if T:
+                    if v in unsure:
+                        skip = True
+                        continue
+                    kind = None if live.get(v) == T else "null" if v == 0 else "wrong type" if v in live \
+                        else "freed" if v in released else "foreign"
+                    if kind is None and v in hvals and pname in CONSUMES.get(f, []):
+                        kind = "freed"        # the same handle passed for two consumed parameters: gone after the first
+                    hvals.append(v)
+                    stats["kinds"]["arg " + (kind or "valid")] += 1
+                    if kind:
+                        bad.append((pname, kind))
+                        stats["triples"].add((f, pname, kind))
+                elif REQUIRED_PTR.match(ty) and v == 0:
+                    stats["kinds"]["arg null (non-handle pointer)"] += 1
+                    bad.append((pname, "null"))
+                    stats["triples"].add((f, pname, "null"))
+            if bad and not skip:
+                pname, kind = bad[0]
+                if not indicator_is_error(t):
+                    viol(f"{kind} passed for `{pname}` but the call returned {t['ret']} (no error indicator)", param=pname, kind=kind)
+                elif not t["err"] or not t["msg"]:
+                    viol(f"{kind} passed for `{pname}`: error value returned but no error message is retrievable", param=pname, kind=kind)
+                stats["rejected"] += 1
+            for pname in CONSUMES.get(f, []):
+                i = [p[0] for p in spec["params"]].index(pname)
+                v = args[i] if i < len(args) else 0
+                if v in live and live[v] == HANDLE_RE.match(spec["params"][i][2]).group(1):
+                    del live[v]
+                    if bad or skip:
+                        unsure.add(v)
+                    else:
+                        released.add(v)
+            for a, ty in t["outs"]:
+                if ty == "untracked":
+                    viol("returned a pointer that the registry does not track (c2pa_free cannot release it)", param="return", kind="untracked")
+                    continue
+                if a in released:
+                    stats["reissued"] += 1
+                if a in live:
+                    viol(f"returned address {ty} is that of a handle that is still live", param="return", kind="alias")
+                live[a] = ty
+                unsure.discard(a)
+                released.discard(a)
+        # the registry is the implementation's own record of liveness: it must agree with the history
+        for a, ty in live.items():
+            if reg.get(a) != ty:
+                viol(f"a live {ty} handle is no longer registered", param="registry", kind="lost")
+                break
+        else:
+            for a in reg:
+                if a not in live and a not in unsure:
+                    viol(f"the registry still holds a {reg[a]} handle that was released or never returned", param="registry", kind="stale")
+                    break
+    if case.get("free_all", True) and res["end"] != 0:
+        ctx.report_violation(case, f"{res['end']} handles still tracked after one c2pa_free per live handle", dict(mi0, leak=True))
+
+
+# ------------------------------------------------------------------ correspondence with the Coq model
+
+def model_expr(res, facts):
+    ren = {0: 0}
+
+    def r(a):
+        if a not in ren:
+            ren[a] = len(ren) + 10
+        return ren[a]
+    T = facts["types"]
+    calls = []
+    if res["start"]:
+        calls.append("CApi [] [] (BOk [" + "; ".join(f"({r(a)}, {T.get(t, 0)})" for a, t in res["start"]) + "])")
+    for t in res["trace"]:
+        args = [r(v) if k == "p" else v for k, v in t["args"]]
+        if t["f"] in facts["free_fns"] or t["f"] == "cimpl_free":
+            calls.append(f"CFree {args[0]}")
+            continue
+        if impl_outcome(t)[0] == "ok":
+            body = "(BOk [" + "; ".join(f"({r(a)}, {T.get(ty, 0)})" for a, ty in t["outs"] if ty != "untracked") + "])"
+        else:
+            body = "BErr"
+        calls.append(f'CApi g_{t["f"]} [' + "; ".join(str(x) for x in args) + f"] {body}")
+    return "run_obs MAX_CSTRING_LEN init [" + ";\n ".join(calls) + "]", ren, (1 if res["start"] else 0)
+
+
+def compare(ctx, case, res, mo, ren, skip, facts, stats):
+    T = facts["types"]
+    mo = mo[skip:] if isinstance(mo, list) else []
+    if len(mo) != len(res["trace"]):
+        ctx.disagreements.append({"case": case, "impl": f"{len(res['trace'])} steps", "model": f"{len(mo)} steps"})
+        return
+    for k, (t, m) in enumerate(zip(res["trace"], mo)):
+        mout, mev, mreg = m
+        if mout == "OUB":
+            stats["model_ub"] += 1
+            return        # unvalidated dereference: the model claims nothing from here on
+        mo_c = ("ok",) if mout == "OOk" else ("err", mout[1])
+        io_c = impl_outcome(t)
+        ireg = sorted((ren[a], T.get(ty, 0)) for a, ty in t["reg"])
+        mreg = sorted((a, ty) for a, ty in (mreg or []))
+        if mo_c != io_c or ireg != mreg:
+            ctx.disagreements.append({"case": case, "step": k, "f": t["f"], "impl": [io_c, ireg], "model": [mo_c, mreg], "msg": t["msg"]})
+            return
+        stats["released_events"] += len(mev or [])
+
+
+# ------------------------------------------------------------------ generation
+
+def _fx(p):
+    return open(os.path.join(common.REPO, "sdk/tests/fixtures/certs", p)).read()
+
+
+STR = {
+    "format": ["image/jpeg", "image/jpeg", "jpg", "application/x-unknown"], "manifest_json": ["{}", '{"title":"t"}', "not json"],
+    "settings_str": ['{"verify":{"verify_after_sign":false}}', "{"], "path": ["verify.verify_after_sign", "no.such.key"],
+    "value": ["true", "false", "nope"], "uri": ["thumb.jpg", "self#jumbf=x"], "remote_url": ["http://example.com/m.c2pa"],
+    "base_path": ["/tmp"], "action_json": ['{"action":"c2pa.edited"}', "["], "ingredient_json": ['{"title":"i"}'],
+    "ingredient_id": ["x"], "error_str": ["Other: from the caller", "plain"], "tsa_url": [None, "http://tsa.invalid/"],
+    "data_hash": ['{"exclusions":[{"start":10,"length":20}],"name":"jumbf manifest","alg":"sha256","hash":"gWZNEOMHQNiULfA/tO5HD2awOwYDA3tnfUPApIr9csk=","pad":" "}'],
+}
+MAKES = {"C2paSettings": ["c2pa_settings_new"], "C2paContextBuilder": ["c2pa_context_builder_new"],
+         "C2paContext": ["c2pa_context_new", "c2pa_context_builder_build"], "C2paReader": ["c2pa_reader_new", "c2pa_reader_from_context"],
+         "C2paBuilder": ["c2pa_builder_from_json", "c2pa_builder_from_context"], "C2paSigner": ["c2pa_signer_from_info", "c2pa_signer_create"],
+         "C2paHttpResolver": ["c2pa_http_resolver_create"], "C2paStream": ["c2pa_create_stream"],
+         "CString": ["c2pa_version", "c2pa_error"], "Bytes": ["c2pa_ed25519_sign"]}
+RETURNS = {"c2pa_version": "CString", "c2pa_error": "CString", "c2pa_settings_new": "C2paSettings", "c2pa_context_builder_new": "C2paContextBuilder",
+           "c2pa_context_new": "C2paContext", "c2pa_context_builder_build": "C2paContext", "c2pa_reader_new": "C2paReader",
+           "c2pa_reader_from_context": "C2paReader", "c2pa_reader_from_stream": "C2paReader", "c2pa_reader_with_stream": "C2paReader",
+           "c2pa_reader_with_fragment": "C2paReader", "c2pa_reader_json": "CString", "c2pa_reader_detailed_json": "CString", "c2pa_reader_crjson": "CString",
+           "c2pa_builder_from_json": "C2paBuilder", "c2pa_builder_from_context": "C2paBuilder", "c2pa_builder_from_archive": "C2paBuilder",
+           "c2pa_builder_with_definition": "C2paBuilder", "c2pa_builder_with_archive": "C2paBuilder", "c2pa_signer_from_info": "C2paSigner",
+           "c2pa_signer_create": "C2paSigner", "c2pa_identity_signer_create": "C2paSigner", "c2pa_http_resolver_create": "C2paHttpResolver",
+           "c2pa_create_stream": "C2paStream", "c2pa_ed25519_sign": "Bytes"}
+OUT_BYTES = {"c2pa_builder_sign", "c2pa_builder_sign_context", "c2pa_builder_data_hashed_placeholder", "c2pa_builder_placeholder",
+             "c2pa_builder_sign_embeddable", "c2pa_builder_sign_data_hashed_embeddable", "c2pa_format_embeddable"}
+SKIP = {"c2pa_load_settings", "c2pa_signer_from_settings", "c2pa_free_string_array", "c2pa_reader_from_manifest_data_and_stream",
+        "c2pa_reader_with_manifest_data_and_stream", "c2pa_format_embeddable", "c2pa_builder_sign_context", "c2pa_builder_sign_embeddable",
+        "c2pa_builder_placeholder"}
+SLOW = {"c2pa_builder_sign": 0.08, "c2pa_reader_from_stream": 0.25, "c2pa_reader_with_stream": 0.3, "c2pa_builder_add_ingredient_from_stream": 0.2,
+        "c2pa_builder_update_hash_from_stream": 0.3, "c2pa_builder_sign_data_hashed_embeddable": 0.3, "c2pa_reader_supported_mime_types": 0.15,
+        "c2pa_builder_supported_mime_types": 0.15, "c2pa_reader_detailed_json": 0.5, "c2pa_reader_crjson": 0.5}
+FREES = ["c2pa_free"] * 8 + ["c2pa_string_free", "c2pa_release_string", "c2pa_reader_free", "c2pa_builder_free", "c2pa_signer_free",
+                              "c2pa_manifest_bytes_free", "c2pa_signature_free", "c2pa_release_stream"]
+BAD_KINDS = ["null", "wrong", "freed", "foreign", "interior"]
+
+
+class Gen:
+    def __init__(self, rng, facts):
+        self.rng, self.facts = rng, facts
+        self.ops, self.objs = [], []
+        self.certs, self.key = _fx("ed25519.pub"), _fx("ed25519.pem")
+
+    # -- predicted objects
+    def live(self, T=None, other=None):
+        return [o for o in self.objs if o["st"] == "live" and (T is None or o["t"] == T) and (other is None or o["t"] != other)]
+
+    def emit(self, f, a):
+        self.ops.append({"f": f, "a": a})
+        return len(self.ops) - 1
+
+    def new_obj(self, i, T):
+        o = {"ref": {"op": i, "j": 0}, "t": T, "st": "live"}
+        self.objs.append(o)
+        return o
+
+    def make(self, T):
+        f = self.rng.choice(MAKES[T])
+        i = self.call(f, force_valid=True)
+        return self.objs[-1] if self.objs and self.objs[-1]["ref"]["op"] == i else self.new_obj(i, T)
+
+    def handle(self, T, kind):
+        rng = self.rng
+        if kind == "valid":
+            c = self.live(T)
+            return dict((rng.choice(c) if c and rng.random() < 0.8 else self.make(T))["ref"]), None
+        if kind == "null":
+            return {"null": True}, None
+        if kind == "foreign":
+            return {"foreign": rng.randrange(4)}, None
+        if kind == "interior":
+            c = self.live(T) or [self.make(T)]
+            return dict(rng.choice(c)["ref"], off=8), None
+        if kind == "wrong":
+            c = self.live(other=T)
+            o = rng.choice(c) if c else self.make("C2paSettings" if T != "C2paSettings" else "C2paContextBuilder")
+            return dict(o["ref"]), None
+        # freed: an address that was a handle and has been released (by free or by a consuming call)
+        c = [o for o in self.objs if o["st"] != "live" and (o["t"] == T or rng.random() < 0.3)]
+        if not c:
+            o = self.make(T)
+            self.emit("c2pa_free", [dict(o["ref"])])
+            o["st"] = "freed"
+            c = [o]
+        return dict(rng.choice(c)["ref"], stale=1), None
+
+    def string(self, f, pname, force_valid):
+        rng = self.rng
+        if not force_valid:
+            x = rng.random()
+            if x < 0.06 and pname != "tsa_url":
+                return {"s": None}
+            if x < 0.07:
+                return {"slen": self.facts["maxstr"] + 1}
+        if pname == "certs":
+            return {"s": self.certs}
+        if pname == "private_key":
+            return {"s": self.key if force_valid or rng.random() < 0.8 else "not a key"}
+        v = STR.get(pname, ["x"])
+        return {"s": v[0] if force_valid else rng.choice(v)}
+
+    def call(self, f, force_valid=False, bad=None):
+        """emit one call of f; bad = (param index, kind) forces that parameter"""
+        rng, spec = self.rng, self.facts["fns"][f]
+        raw = known_raw(self.facts, f)
+        args, kinds = [], []
+        params = spec["params"][:spec["nreal"]]
+        for i, (pname, pk, ty) in enumerate(params):
+            m = HANDLE_RE.match(ty)
+            T = m.group(1) if m and m.group(1) in self.facts["types"] else None
+            if T:
+                if bad and bad[0] == i:
+                    kind = bad[1]
+                elif force_valid or bad or i in raw:
+                    kind = "null" if (i in raw and (f, pname) in OPTIONAL and rng.random() < 0.5) else "valid"
+                else:
+                    kind = rng.choices(["valid"] + BAD_KINDS, [66, 7, 9, 10, 4, 4])[0]
+                a, _ = self.handle(T, kind)
+                if kind == "valid" and (i in raw or any(a == x for x in args)):
+                    # never alias two live &mut arguments; a parameter the source dereferences unchecked gets an
+                    # object created immediately before the call, so that it is certainly live
+                    a = dict(self.make(T)["ref"])
+                args.append(a)
+                kinds.append(kind)
+            elif re.match(r"^\*(?:mut|const)\s+c_char$", ty):
+                if bad and bad[0] == i:
+                    args.append({"s": None} if bad[1] == "null" else {"slen": self.facts["maxstr"] + 1})
+                else:
+                    args.append(self.string(f, pname, force_valid or bool(bad)))
+            elif pk[0] == "PBytes":
+                if bad and bad[0] == i:
+                    args.append({"bytes": None})
+                else:
+                    args.append({"bytes": "00010203"} if force_valid or bad or rng.random() < 0.9 else {"bytes": None})
+            elif re.match(r"^\*mut\s+(\*const c_uchar|usize|C2paHashType)$", ty):
+                if bad and bad[0] == i:
+                    args.append({"out": False})
+                else:
+                    args.append({"out": True if (force_valid or bad or i in raw) else rng.random() < 0.9})
+            elif ty.startswith("&"):
+                good = {"alg": "ed25519", "cert": "@cert", "key": "@key"}
+                if not (force_valid or bad) and rng.random() < 0.3:
+                    good = rng.choice([{"alg": "BadAlg", "cert": "c", "key": "k"}, {"cert": "@cert", "key": "@key"}, {"alg": "ed25519", "key": "@key"}])
+                args.append({"info": good})
+            elif f == "c2pa_create_stream" and i == 0:
+                args.append({"data": "jpeg" if force_valid else rng.choice(["jpeg", "jpeg", "empty", "junk"])})
+            elif pname in ("len", "data_len", "manifest_size", "manifest_bytes_size"):
+                args.append({"n": 4 if force_valid or bad or rng.random() < 0.85 else rng.choice([0, 1 << 63, (1 << 64) - 1])})
+            elif pname == "alg":
+                args.append({"n": 6})
+            elif pname == "reserved_size":
+                args.append({"n": 10000})
+            elif ty.startswith("*"):
+                args.append({"null": True} if rng.random() < 0.5 else {"foreign": 0})      # opaque user context: passed through
+            else:
+                args.append({"n": rng.randrange(3)})
+        i = self.emit(f, args)
+        all_valid = all(k == "valid" for k in kinds)
+        # predicted effects (hints for later choices only; the harness resolves references to real addresses)
+        if all_valid or not kinds:
+            for g in spec["guards"]:
+                if g[0] == "GUntrack":
+                    for o in self.objs:
+                        if o["ref"] == {k: v for k, v in args[g[1]].items() if k in ("op", "j")} and o["st"] == "live":
+                            o["st"] = "consumed"
+            if f in RETURNS:
+                self.new_obj(i, RETURNS[f])
+            elif f in OUT_BYTES and any(a.get("out") for a in args):
+                self.new_obj(i, "Bytes")
+        return i
+
+    def free(self):
+        rng = self.rng
+        f = rng.choice(FREES)
+        kind = rng.choices(["live", "freed", "foreign", "null", "interior"], [55, 27, 7, 4, 7])[0]
+        live = self.live()
+        dead = [o for o in self.objs if o["st"] != "live"]
+        if kind == "live" and live:
+            o = rng.choice(live)
+            self.emit(f, [dict(o["ref"])])
+            o["st"] = "freed"
+        elif kind == "freed" and dead:
+            self.emit(f, [dict(rng.choice(dead)["ref"], stale=1)])
+        elif kind == "interior" and live:
+            self.emit(f, [dict(rng.choice(live)["ref"], off=rng.choice([1, 8, 16]))])
+        elif kind == "null":
+            self.emit(f, [{"null": True}])
+        else:
+            self.emit(f, [{"foreign": rng.randrange(4)}])
+
+    def sequence(self, n):
+        rng = self.rng
+        pool = [f for f in sorted(self.facts["fns"]) if f not in SKIP]
+        while len(self.ops) < n:
+            x = rng.random()
+            if x < 0.30:
+                self.free()
+            elif x < 0.38:
+                self.call("c2pa_error")
+            else:
+                f = rng.choice(pool)
+                if rng.random() > SLOW.get(f, 1.0):
+                    continue
+                self.call(f)
+        return {"ops": self.ops, "free_all": True}
+
+
+def gen_random(rng, facts, n):
+    return Gen(rng, facts).sequence(n)
+
+
+def gen_systematic(rng, facts):
+    """every (function, checked pointer parameter, bad kind), each as its own short sequence followed by a
+    double-free probe of whatever the sequence created"""
+    out = []
+    for f in sorted(facts["fns"]):
+        if f in SKIP:
+            continue
+        spec = facts["fns"][f]
+        raw = known_raw(facts, f)
+        for i, (pname, pk, ty) in enumerate(spec["params"][:spec["nreal"]]):
+            if i in raw:
+                continue
+            m = HANDLE_RE.match(ty)
+            if m and m.group(1) in facts["types"]:
+                kinds = BAD_KINDS
+            elif pk[0] in ("PStr", "PBytes", "POut"):
+                kinds = ["null"] + (["toolong"] if pk[0] == "PStr" else [])
+            else:
+                continue
+            for kind in kinds:
+                if kind == "null" and (f, pname) in OPTIONAL:
+                    continue
+                g = Gen(rng, facts)
+                g.call(f, bad=(i, kind))
+                g.call("c2pa_error")
+                for o in list(g.live())[:3]:          # free, then free again: the second must be an error
+                    g.emit("c2pa_free", [dict(o["ref"])])
+                    g.emit("c2pa_free", [dict(o["ref"], stale=1)])
+                out.append({"ops": g.ops, "free_all": True, "sys": [f, pname, kind]})
+    return out
+
+
+def corpus():
+    p = os.path.join(common.VERIF, "corpus", "C31.jsonl")
+    if not os.path.exists(p):
+        return []
+    return [json.loads(l) for l in open(p) if l.strip()]
+
+
+# ------------------------------------------------------------------ driver
+
+IMPORTS = ("From Coq Require Import NArith List String.\nFrom C2PA Require Import Model.Registry Model.FfiGuards Generated.C31_facts.\n"
+           "Import ListNotations.\nOpen Scope string_scope.\nOpen Scope N_scope.")
+ENV = {"MALLOC_CHECK_": "3", "MALLOC_PERTURB_": "165"}
+
+
+def evaluate(ctx, cases, with_model=True):
+    facts = ctx.facts
+    for c in cases:
+        for op in c["ops"]:
+            if op["f"] not in facts["fns"] and op["f"] not in facts["free_fns"] and op["f"] != "cimpl_free":
+                raise TieBroken(f"exported function {op['f']} used by a case no longer exists in the source")
+            if op["f"] in facts["fns"] and len(op["a"]) != facts["fns"][op["f"]]["nreal"] - (1 if op["f"] == "c2pa_free_string_array" and "arr" in op["a"][0] else 0):
+                raise TieBroken(f"signature of {op['f']} changed: {facts['fns'][op['f']]['nreal']} parameters, case has {len(op['a'])}")
+    normal = [c for c in cases if not suspects(c, facts)]
+    iso = [c for c in cases if suspects(c, facts)]
+    impl = common.run_harness("c31", normal, env=ENV)
+    # a sequence that dies takes the rest of its shard with it, and the sequence that corrupted the heap may be an
+    # earlier one of the same shard: re-run the dead and the unrun ones alone, so that each verdict is about one sequence
+    redo = [c for c in normal if impl.get(c["id"], {"r": "crash"})["r"] in ("crash", "panic")]
+    only_in_shard = []
+    for c in redo[:300]:
+        first = impl.get(c["id"])
+        impl.update(common.run_harness("c31", [c], env=ENV))
+        if first and first["r"] == "crash" and impl[c["id"]]["r"] == "ok":
+            only_in_shard.append((c, first))
+    for c in iso:                                   # a sequence that can take the process down runs alone
+        impl.update(common.run_harness("c31", [c], env=ENV))
+    stats = {"ops": 0, "crashes": 0, "rejected": 0, "reissued": 0, "reissued_same_call": 0, "model_ub": 0, "released_events": 0,
+             "fn": {}, "kinds": {}, "triples": set(), "isolated_sequences": len(iso), "not_run": 0}
+
+    class D(dict):
+        def __missing__(self, k):
+            return 0
+    stats["kinds"] = D()
+    done = []
+    for c in cases:
+        res = impl.get(c["id"])
+        if res is None:
+            stats["not_run"] += 1
+            continue
+        oracle_case(ctx, c, res, facts, stats, set())
+        if res["r"] == "ok":
+            done.append((c, res))
+    if only_in_shard and not ctx.violations:
+        c, first = only_in_shard[0]
+        ctx.report_violation(c, "the harness process died at this sequence after running the preceding sequences of its shard "
+                                f"(it completes when run alone): {first.get('msg', '')[:200]}", {"suspects": [], "crash": True, "shard_only": True})
+    if with_model and done:
+        exprs = [model_expr(res, facts) for _, res in done]
+        mos = common.coq_eval("C31", IMPORTS, [e[0] for e in exprs], shard_size=max(8, min(60, len(exprs) // 16 + 1)))
+        for (c, res), (_, ren, skip), mo in zip(done, exprs, mos):
+            compare(ctx, c, res, mo, ren, skip, facts, stats)
+    return stats
+
+
+def valgrind_pass(ctx, cases, n=40, shards=8):
+    """thorough tier: a sample of sequences under valgrind memcheck — invalid reads/writes/frees anywhere in the
+    library and handles whose memory is never released (definite leaks) are errors (exit code 97)"""
+    import shutil, subprocess
+    if not shutil.which("valgrind"):
+        ctx.assumptions.append("valgrind not installed: memcheck pass skipped")
+        return
+    ok = [c for c in cases if not suspects(c, ctx.facts) and not any("mime_types" in o["f"] for o in c["ops"])]
+    sample = ctx.rng.sample(ok, min(n, len(ok)))
+    cmd = ["valgrind", "-q", "--error-exitcode=97", "--leak-check=full", "--show-leak-kinds=definite", "--errors-for-leak-kinds=definite",
+           common.HARNESS_BIN, "c31"]
+
+    def launch(k, cs):
+        path = os.path.join(common.CASES, f"c31_vg_{k}.jsonl")
+        with open(path, "w") as f:
+            for c in cs:
+                f.write(json.dumps(c) + "\n")
+        return subprocess.Popen(cmd + [path], stdout=subprocess.PIPE, stderr=subprocess.PIPE, text=True)
+    procs = [(sample[k::shards], launch(k, sample[k::shards])) for k in range(shards) if sample[k::shards]]
+    bad = []
+    for cs, pr in procs:
+        try:
+            so, se = pr.communicate(timeout=2400)
+        except subprocess.TimeoutExpired:
+            pr.kill()
+            continue
+        if pr.returncode != 0:
+            bad.append((cs, se))
+    for cs, se in bad:
+        for j, c in enumerate(cs):          # pinpoint: each sequence of a failing shard alone
+            pr = launch(f"one_{j}", [c])
+            so, se1 = pr.communicate(timeout=2400)
+            if pr.returncode != 0:
+                err = [l for l in se1.splitlines() if "==" in l and ("Invalid" in l or "lost" in l or "free" in l)][:2]
+                ctx.report_violation(c, "valgrind memcheck: " + (" | ".join(err) or se1[-300:]), {"suspects": [], "valgrind": True, "crash": pr.returncode != 97})
+                break
+    ctx.coverage["valgrind_sequences"] = len(sample)
+
+
+def build_cases(ctx, nrand, nlen, systematic=True):
+    cases = corpus()
+    if systematic:
+        cases += gen_systematic(ctx.rng, ctx.facts)
+    cases += [gen_random(ctx.rng, ctx.facts, ctx.rng.choice(nlen)) for _ in range(nrand)]
+    for i, c in enumerate(cases):
+        c["id"] = i
+    return cases
+
+
+def run(ctx):
+    if not getattr(ctx, "facts", None):
+        raise TieBroken("no guard table: the source could not be translated")
+    if not getattr(ctx, "no_build", False):
+        common.build_harness()
+    if ctx.replay:
+        cases = [ctx.replay["case"]] if "case" in ctx.replay else [d["case"] for d in ctx.replay.get("disagreements", [])]
+        for i, c in enumerate(cases):
+            c["id"] = i
+    else:
+        cases = build_cases(ctx, 70 if ctx.quick() else 1500, [12, 25, 40] if ctx.quick() else [10, 25, 40, 60, 90])
+    stats = evaluate(ctx, cases)
+    if not ctx.quick() and not ctx.replay:
+        valgrind_pass(ctx, cases)
+    triples = stats.pop("triples")
+    stats["kinds"] = dict(stats["kinds"])
+    stats["functions_called"] = len(stats["fn"])
+    stats["fn"] = dict(sorted(stats["fn"].items(), key=lambda kv: -kv[1])[:12])
+    ctx.coverage.update({
+        "evaluations": stats["ops"], "distinct_nontrivial": len(triples),
+        "rule": "corpus + one short sequence per (exported function, checked pointer parameter, bad kind in {NULL, wrong type, freed, "
+                "foreign, interior pointer / NULL or over-long string / NULL buffer / NULL out-parameter}) each followed by free + second free, "
+                "+ seeded random sequences (30% frees incl. stale/foreign/interior, 8% c2pa_error, rest API calls with 34% bad handle arguments); "
+                "evaluations = API calls executed and compared; non-trivial = distinct (function, parameter, misuse kind) actually observed",
+        "sequences": len(cases), "distribution": stats, "traces_validated_against_impl": len(cases) - stats["not_run"],
+        "samples": [{"ops": [f"{o['f']}({json.dumps(o['a'])[:80]})" for o in c["ops"][:4]], "n_ops": len(c["ops"])} for c in cases[:2] + cases[-2:]],
+    })
+
+
+def search(ctx):
+    """tie broken and nothing found yet: more and longer sequences, oracle only"""
+    if not getattr(ctx, "facts", None):
+        try:
+            types, fns, free_fns, maxstr = translate()
+            ctx.facts = {"types": types, "fns": fns, "free_fns": free_fns, "maxstr": maxstr}
+        except TieBroken:
+            return
+    common.build_harness()
+    cases = build_cases(ctx, 400, [20, 40, 80])
+    stats = evaluate(ctx, cases, with_model=False)
+    ctx.coverage["search_evaluations"] = stats["ops"]
